@@ -260,7 +260,7 @@ def strat_grid(stratum, tier):
             D=st.just(stratum["D"]),
             N=st.just(stratum["N"]),
             idx=st.just(stratum["idx"]),
-            L=gens.st_L(),
+            L=gens.st_L(extreme=True),
             seed=gens.st_seed(),
             C=st.integers(1, 3),
         )
@@ -412,7 +412,7 @@ def strat_planewave(stratum, tier, k):
                 st.sampled_from([0.0, math.pi / 2, math.pi, 0.3]),
                 st.floats(0, 2 * math.pi).map(lambda x: float("%.4g" % x)),
             ),
-            L=gens.st_L(),
+            L=gens.st_L(extreme=True),
         )
     )
 
@@ -546,7 +546,7 @@ def strat_coef(stratum, tier):
             k=st.lists(st.integers(0, N // 2), min_size=D, max_size=D),
             trig=st.lists(st.sampled_from(["cos", "sin"]), min_size=D, max_size=D),
             A=gens.nonzero_coef(0.1, 3.0),
-            L=gens.st_L(),
+            L=gens.st_L(extreme=True),
             rnd=st.sampled_from([None, 5, 3]),
         )
     )
@@ -627,7 +627,7 @@ def strat_deriv(stratum, tier):
             N=st.just(N),
             idx=st.sampled_from(IDX),
             modes=gens.st_modes(D, kmax, 1, 4),
-            L=gens.st_L(),
+            L=gens.st_L(extreme=True),
             order=st.integers(1, 3),
         )
     )
